@@ -5986,7 +5986,7 @@ class Parser:
             expression = this.expression
 
             if expression:
-                for arg in self.SET_OP_MODIFIERS:
+                for arg in sorted(self.SET_OP_MODIFIERS):
                     expr = expression.args.get(arg)
                     if expr:
                         this.set(arg, expr.pop())
